@@ -249,7 +249,7 @@ const WORDS: [&str; 10] = ["Get", "Set", "Led", "Adc", "Run", "Stop", "Item", "M
 // ... and two are not ASCII (Rust identifiers may be): generated long / short / value names derive from them
 const FIELD_NAMES: [&str; 16] = ["alpha", "beta", "gamma", "delta", "eps", "zeta", "eta", "theta", "iota_x", "kappa_y", "lam", "mu_nu_xi", "host", "hex_v", "число", "über_v"];
 // several syllables share their leading octets (é/ê, €/₭, 向/吐, 𐍈/𐍉): names then diverge inside a character
-const NAME_SYL: [&str; 20] = ["a", "b", "c", "d", "g", "s", "t", "é", "ж", "go", "st", "€", "Up", "x_y", "ê", "₭", "向", "吐", "𐍈", "𐍉"];
+const NAME_SYL: [&str; 24] = ["a", "b", "c", "d", "g", "s", "t", "é", "ж", "go", "st", "€", "Up", "x_y", "ê", "₭", "向", "吐", "𐍈", "𐍉", "п", "й", "俄", "俊"];
 
 fn kebab_of_camel(id: &str) -> String {
     let mut s = String::new();
